@@ -35,6 +35,12 @@ type tornSink struct {
 	syncs   int32
 }
 
+// c04MutexSink: a sink with a mutex of its own for another purpose (rotation, say); the methods are promoted.
+type c04MutexSink struct {
+	sync.Mutex
+	*tornSink
+}
+
 func (s *tornSink) Write(p []byte) (int, error) {
 	if !atomic.CompareAndSwapInt32(&s.inUse, 0, 1) {
 		atomic.StoreInt32(&s.overlap, 1)
@@ -70,6 +76,7 @@ type c04Program struct {
 	Topology string    `json:"topology"`
 	BufSize  int       `json:"bufSize"`
 	Procs    int       `json:"gomaxprocs"`
+	Refl     bool      `json:"customReflectedEncoder,omitempty"` // reflected values go through a user-supplied encoding/json encoder (newline-terminated output)
 	Scripts  [][]c04Op `json:"goroutines"`
 }
 
@@ -170,6 +177,7 @@ func genC04Program(t *rapid.T) *c04Program {
 		Topology: rapid.SampledFrom([]string{"lock", "combine", "file", "buffered", "tee", "shared-locked", "file-twice", "tee-dropper"}).Draw(t, "topology"),
 		BufSize:  rapid.SampledFrom([]int{64, 128, 256, 1024, 4096}).Draw(t, "bufSize"),
 		Procs:    rapid.SampledFrom([]int{1, 2, 4, 16}).Draw(t, "gomaxprocs"),
+		Refl:     rapid.IntRange(0, 3).Draw(t, "customReflectedEncoder") == 0,
 	}
 	if p.Topology == "lock" || p.Topology == "combine" {
 		p.Minimal = rapid.IntRange(0, 2).Draw(t, "minimalLines") == 0
@@ -210,6 +218,9 @@ func c04Run(t interface{ Fatalf(string, ...any) }, p *c04Program) (alternations 
 	if p.Minimal {
 		jcfg = zapcore.EncoderConfig{NameKey: "n", LevelKey: "l", MessageKey: "m", EncodeLevel: zapcore.CapitalLevelEncoder}
 	}
+	if p.Refl {
+		jcfg.NewReflectedEncoder = mkReflectedEncoder(false)
+	}
 	var streams []*c04Stream
 	var core, altCore zapcore.Core
 	var closers []func()
@@ -222,7 +233,13 @@ func c04Run(t interface{ Fatalf(string, ...any) }, p *c04Program) (alternations 
 	}
 	switch p.Topology {
 	case "lock":
-		core = zapcore.NewCore(zapcore.NewJSONEncoder(jcfg), zapcore.Lock(mkSink("Lock(sink)", false)), zapcore.DebugLevel)
+		// (odd goroutine counts: the sink type also has Lock/Unlock methods of its own, promoted from a mutex it embeds
+		// for something else - that does not make its Write safe, Lock(sink) still has to serialise)
+		var raw zapcore.WriteSyncer = mkSink("Lock(sink)", false)
+		if len(p.Scripts)%2 == 1 {
+			raw = &c04MutexSink{tornSink: raw.(*tornSink)}
+		}
+		core = zapcore.NewCore(zapcore.NewJSONEncoder(jcfg), zapcore.Lock(raw), zapcore.DebugLevel)
 	case "combine":
 		core = zapcore.NewCore(zapcore.NewJSONEncoder(jcfg), zap.CombineWriteSyncers(mkSink("combine A", false), mkSink("combine B", false)), zapcore.DebugLevel)
 	case "file":
